@@ -1,0 +1,22 @@
+//go:build verif
+
+package manifest
+
+// Contracts for govc (see /verif/DESIGN.md). Compiled only with -tags verif.
+
+//@ func decodeEdit
+//@   property C16 C15
+//@   tag decoder
+//@   alloc data
+//@   ensures [total] true
+//@   loop 1 invariant [pos-in-bounds] 0 <= pos && pos <= len(data)
+//@   loop 1 invariant [peers-bounded] uint64(len(peers)) <= i && i <= peersCount && peersCount <= uint64(len(data))
+
+//@ func readBytes
+//@   property C16 C15
+//@   tag decoder
+//@   alloc data
+//@   ensures [total] true
+//@   ensures [consumed-in-bounds] 0 <= result1 && result1 <= len(data)
+//@   ensures [payload-inside] len(result) <= len(data)
+//@   modifies nothing
